@@ -208,6 +208,10 @@ fn finish(name: &str, rule: &str, sh: Mutex<Shared>, violation: Option<Violation
 
 fn is_known(ctx: &Ctx, sig: &str) -> Option<String> {
     let k = sig_key(sig);
+    // survey mode (development aid): never stop, histogram every signature
+    if std::env::var("VERIF_SURVEY").is_ok() {
+        return Some("survey".into());
+    }
     ctx.known.iter().find(|f| f.prop == ctx.prop && f.sig == k).map(|f| f.what.clone())
 }
 
